@@ -421,6 +421,11 @@ func (proj *Project) builtin_glob(
 
 	m := thread.Local("module").(*module)
 	dir := filepath.Dir(m.path)
+	// WalkDir does not follow a symbolic link that is given as its root: a package directory
+	// that is one (a project opened through a link) would look empty.
+	if resolved, err := filepath.EvalSymlinks(dir); err == nil {
+		dir = resolved
+	}
 
 	sources := starlark.NewList(nil)
 	err = filepath.WalkDir(dir, func(path string, d fs.DirEntry, err error) error {
